@@ -1,5 +1,124 @@
-/- Lock-step oracle driver (stub: replaced when the model is built). -/
-import Golem.Driver.Util
+/-
+`oracle forkfold`: lock-step oracle for fork.Fold (state-set engine over `Golem.Go.FF`).
+Line: `<idx> <cfg> | <moves> || <observations>` → `<idx> ok` / `<idx> MISMATCH …`.
+-/
+import Std.Data.HashSet
+import Golem.Go.ForkFold
+import Golem.Driver.PoolRun
 namespace Golem.Driver.ForkFold
-def main : IO Unit := IO.eprintln "oracle: no driver for ForkFold yet"
+open Golem.Go Golem.Go.Pool Golem.Model Golem.Driver Golem.Driver.PoolRun
+
+def modulus : Int := 1000003
+
+/-- monoid family — mirrors `monoidOf` in go/harness/lockstep -/
+def monoidOf (name : String) : Int × (Int → Int → Int) :=
+  match name with
+  | "sum" => (0, fun a b => a + b)
+  | "prod" => (1, fun a b => (a * b) % modulus)
+  | "max" => (-1000000, fun a b => if a > b then a else b)
+  | "min" => (1000000, fun a b => if a < b then a else b)
+  | "and" => (1048575, fun a b => Int.ofNat (Nat.land a.toNat b.toNat))
+  | "or" => (0, fun a b => Int.ofNat (Nat.lor a.toNat b.toNat))
+  | _ => (7, fun a b => (a * 31 + b) % modulus)
+
+def rI : Render Int Int := { showS := fun a => toString a, showV := fun _ v => s!"v{v}" }
+
+def showColl : Coll Int → String
+  | .waiting => "W" | .reading n a => s!"R{n}/{a}" | .sending a => s!"S{a}" | .closeVals => "cv" | .closeDone => "cd" | .halted => "H"
+
+def fkey (s : FF Int) : String :=
+  PoolRun.key rI 1 1 s.pool ++ "#" ++ showColl s.coll ++ "#" ++ showInts s.done.buf ++ (if s.done.closed then "!" else "")
+
+def flens (s : FF Int) : String := s!"[{(s.pool.ins 0).buf.length};{s.done.buf.length}]"
+
+partial def closure (c : Int → Int → Int) (e : Int) (par : Nat) (init : List (FF Int)) : List (FF Int) := Id.run do
+  let mut seen : Std.HashSet String := {}
+  let mut work := init
+  let mut quiet : List (FF Int) := []
+  let mut fuel := 2000000
+  while !work.isEmpty && fuel > 0 do
+    fuel := fuel - 1
+    match work with
+    | [] => pure ()
+    | s :: rest =>
+      work := rest
+      let k := fkey s
+      if seen.contains k then continue
+      seen := seen.insert k
+      if s.pool.panicked then
+        quiet := s :: quiet
+        continue
+      let nx := (PoolRun.reducedNext (foldS c) s.pool).map (fun q => { s with pool := q }) ++ FF.collNext c e par s
+      if nx.isEmpty then quiet := s :: quiet else work := nx ++ work
+  return quiet
+
+def alive (s : FF Int) : Nat :=
+  ((List.range s.pool.nW).filter fun i => !(Ctl.isExited (s.pool.ws i).ctl)).length +
+    (match s.coll with | .halted => 0 | _ => 1)
+
+def applyMove (c : Int → Int → Int) (s : FF Int) (mv : String) : List (FF Int × String) :=
+  let body := (mv.drop 1).toString
+  let sh := fun (x : FF Int × Obs Int) => (x.1, showObs rI 0 x.2)
+  match mv.front with
+  | 's' => match body.toInt? with
+    | some v => (FF.envNext c s (.send v)).map sh
+    | none => [(s, "bad")]
+  | 'c' => (FF.envNext c s .close).map sh
+  | 'x' => (FF.envNext c s .cancel).map sh
+  | 'r' => (FF.envNext c s .recv).map sh
+  | 'z' => [(s, toString (alive s))]
+  | _ => [(s, "bad")]
+
+def check (c : Int → Int → Int) (e : Int) (par : Nat) (s0 : FF Int) (moves obs : List String) : String := Id.run do
+  let cl := closure c e par
+  let mut states := cl [s0]
+  match obs with
+  | [] => return "MISMATCH no observations"
+  | o0 :: orest =>
+    let want0 := (o0.drop 2).toString
+    states := states.filter fun s => !s.pool.panicked && flens s == want0
+    if states.isEmpty then return s!"MISMATCH at init: impl={o0}"
+    let mut os := orest
+    let mut idx := 0
+    for mv in moves do
+      match os with
+      | [] => return s!"MISMATCH at {idx} {mv}: implementation produced no observation (crashed?)"
+      | o :: r =>
+        os := r
+        let cands := states.flatMap fun s => applyMove c s mv
+        let body := (o.drop (mv.length + 1)).toString
+        let res := (body.splitOn "[").headD ""
+        let ln := "[" ++ ((body.splitOn "[").getD 1 "")
+        let hit := cands.filter fun (_, t) => t == res
+        if hit.isEmpty then
+          return s!"MISMATCH at {idx} {mv}: impl={res} model allows {(cands.map (·.2)).eraseDups}"
+        let after := cl (hit.map (·.1))
+        let ok := after.filter fun s => !s.pool.panicked && flens s == ln
+        if ok.isEmpty then
+          return s!"MISMATCH at {idx} {mv}: impl lens={ln} model allows {(after.map flens).eraseDups}"
+        states := ok
+        idx := idx + 1
+    return "ok"
+
+def run (line : String) : String :=
+  match line.splitOn " || " with
+  | [script, obsS] =>
+    match script.splitOn " | " with
+    | cfgS :: rest =>
+      let moves := words (rest.headD "")
+      let kv := (words cfgS).filterMap fun w => match w.splitOn "=" with | [k, v] => some (k, v) | _ => none
+      let get := fun k d => ((kv.find? (·.1 == k)).map (·.2)).getD d
+      let par := (get "par" "1").toNat?.getD 1
+      let cap := (get "cap" "0").toNat?.getD 0
+      let (e, c) := monoidOf (get "mon" "")
+      check c e par (FF.init e par cap false) moves (words obsS)
+    | _ => "bad-op"
+  | _ => "bad-op"
+
+def step (line : String) : String :=
+  match line.splitOn " " with
+  | idx :: rest => idx ++ " " ++ run (" ".intercalate rest)
+  | _ => "bad-op"
+
+def main : IO Unit := eachLine step
 end Golem.Driver.ForkFold
